@@ -8,7 +8,7 @@ RULE = ("(a) widths: every (global bitlength b in 2..4[5], requested width n in 
         "from_bits(to_bits(v, n)) == v for 0 <= v < 2^n, rejection outside, on real and small fields, enumerated "
         "completely; and by witness-space search (as C03) the satisfiable operand set of to_bits(n) and of "
         "assert_positive(bits=n) is exactly [0, 2^n) over all of F_p for n != b. (b) packers: schemas from a recursive "
-        "strategy over PackBool / PackIntMod(m>=2) / PackList / PackRepeat with plain and secret (PrivVal) leaves: "
+        "strategy over PackBool / PackIntMod(m>=2) / PackList / PackRepeat with plain, secret (PrivVal) and mixed plain/secret leaves: "
         "unpack(pack(x)) == x by value also at a non-zero bit offset, bitlen() == len(pack(x)), emitted constraints "
         "satisfied, plain out-of-range leaves rejected. Non-trivial = n != b for (a); schema depth >= 2 with a "
         "non-power-of-two modulus for (b); distinct by case digest.")
@@ -106,12 +106,13 @@ def draw_value(draw, s):
     return [draw_value(draw, s[1]) for _ in range(s[2])]
 
 
-def secretise(ns, s, v):
+def secretise(ns, s, v, mask=None):
+    """mask: None = every leaf secret; else an iterator of booleans, one per leaf in traversal order"""
     if s[0] in ("bool", "int"):
-        return ns.rt.PrivVal(v)
+        return ns.rt.PrivVal(v) if (mask is None or next(mask)) else v
     if s[0] == "list":
-        return [secretise(ns, x, y) for x, y in zip(s[1], v)]
-    return [secretise(ns, s[1], y) for y in v]
+        return [secretise(ns, x, y, mask) for x, y in zip(s[1], v)]
+    return [secretise(ns, s[1], y, mask) for y in v]
 
 
 def plainify(ns, x):
@@ -155,13 +156,28 @@ def pack_case(case):
     s, v, secret, off, b, p = case["schema"], case["value"], case["secret"], case["offset"], case["b"], case["p"]
     ns = env.reset(p, b, 0)
     pkr = build(ns, s)
-    val = secretise(ns, s, v) if secret else v
+    if secret == "mixed":
+        val = secretise(ns, s, v, iter(case["mask"] * 50))
+    else:
+        val = secretise(ns, s, v) if secret else v
+    try:
+        bits = pkr.pack(val)
+        out_probe = pkr.unpack(([ns.bo.PrivValBool(0) for _ in range(off)] if secret is True else [1] * off) + bits, off)
+    except Exception as e:
+        # all leaves are inside the documented domain: an exception means the round trip fails
+        return "pack/unpack of in-range value %r (secret=%s, offset %d) raised %s: %s" % (v, secret, off, type(e).__name__, e)
+    ns = env.reset(p, b, 0)
+    pkr = build(ns, s)
+    if secret == "mixed":
+        val = secretise(ns, s, v, iter(case["mask"] * 50))
+    else:
+        val = secretise(ns, s, v) if secret else v
     bits = pkr.pack(val)
     if len(bits) != bitlen_ref(s) or pkr.bitlen() != len(bits):
         return "bitlen() = %r, pack produced %d bits, schema needs %d" % (pkr.bitlen(), len(bits), bitlen_ref(s))
     if not secret and any(bb not in (0, 1) for bb in bits):
         return "pack of plain value produced non-bits %r" % (bits,)
-    pad = [ns.bo.PrivValBool(0) for _ in range(off)] if secret else [1] * off
+    pad = [ns.bo.PrivValBool(0) for _ in range(off)] if secret is True else [1] * off
     out = pkr.unpack(pad + bits, off)
     got = plainify(ns, out)
     if got != v:
@@ -186,7 +202,8 @@ def pack_shard(seed, n_examples):
         draw = data.draw
         s = draw(schemas())
         b = draw(st.sampled_from([5, 6, 8, 16]))
-        case = {"part": "pack", "schema": s, "value": draw_value(draw, s), "secret": draw(st.booleans()),
+        case = {"part": "pack", "schema": s, "value": draw_value(draw, s), "secret": draw(st.sampled_from([True, False, "mixed"])),
+                "mask": [draw(st.booleans()) for _ in range(6)],
                 "offset": draw(st.integers(0, 3)), "b": b, "p": draw(st.sampled_from(["bn128", "bls12-381", "curve25519"]))}
         if not case["secret"] and draw(st.booleans()):
             case["broken"] = break_value(draw, s, case["value"])
@@ -194,7 +211,7 @@ def pack_shard(seed, n_examples):
         case["p"] = resolve_p(case["p"])
         msg = pack_case(case)
         nt = depth(s) >= 2 and nonpow2(s)
-        stats.case(case if nt else None, nt, ("secret" if case["secret"] else "plain", "depth:%d" % depth(s),
+        stats.case(case if nt else None, nt, ("mixed" if case["secret"] == "mixed" else "secret" if case["secret"] else "plain", "depth:%d" % depth(s),
                                               "broken" if case.get("broken") is not None else "roundtrip"))
         if msg:
             raise core.Violation(case, msg, "pack")
